@@ -102,7 +102,18 @@ def fill(client, I, ttype, value):
             setattr(obj, k, v)
         else:
             setattr(obj, k, fill(client, I, members[k]["type"], v))
+    # the element members of a filled object still come in schema order, whatever the
+    # order they were assigned in and whether or not they were pre-populated (choice branches are not)
+    # (where the attributes stand among them follows the order of declaration in the document: not compared)
+    order = [m["name"] for m, _, _ in IF.members_of(I, real)]
+    present = [k for k, _v in obj if not k.startswith("_")]
+    want = [k for k in order if k in present]
+    if [k for k in present if k in order] != want:
+        ORDER_ISSUES.append([K.type_name(I, real), present, want])
     return obj
+
+
+ORDER_ISSUES = []
 
 
 def with_defaults(I, ttype, value):
@@ -380,13 +391,20 @@ def occurrences_roots_and_independence(ctx):
               '<xsd:element name="g" type="xsd:string" minOccurs="0" maxOccurs="10"/>'
               '<xsd:element name="in" type="x:Inner"/><xsd:element name="ins" type="x:Inner" maxOccurs="3"/>'
               '</xsd:sequence></xsd:complexType><xsd:element name="order" type="x:Occ"/>'
+              '<xsd:complexType name="WithAttr"><xsd:sequence><xsd:element name="a" type="xsd:string"/></xsd:sequence>'
+              '<xsd:attribute name="code" type="xsd:string"/></xsd:complexType>'
+              '<xsd:complexType name="WithBoth"><xsd:complexContent><xsd:extension base="x:WithAttr"><xsd:sequence>'
+              '<xsd:element name="code" type="x:Inner"/></xsd:sequence></xsd:extension></xsd:complexContent>'
+              '</xsd:complexType>'
               '<xsd:element name="f"><xsd:complexType><xsd:sequence><xsd:element name="o" type="x:Occ"/>'
               '</xsd:sequence></xsd:complexType></xsd:element>')
     client = wsdlkit.client(wsdlkit.wsdl_doc(schema, "f", None), nosend=True)
     inner = {"__class__": "Inner", "z": None}
     occ = {"__class__": "Occ", "a": None, "b": None, "c": None, "d": [], "e": [], "g": [], "in": inner, "ins": []}
     want = [("Occ", occ), ("order", occ), ("Occ.in", inner),
-            ("order.in", inner), ("order.ins", inner), ("Inner", inner)]
+            ("order.in", inner), ("order.ins", inner), ("Inner", inner),
+            # an inherited attribute and an element of the derived type share a name: the path names the element
+            ("WithBoth.code", inner)]
     for name, exp in want:
         meta = {"stream": "occurrences-and-roots", "name": name}
         ctx.case(common.canon(meta), True)
@@ -501,6 +519,10 @@ def filled_requests(ctx, client, ident, rident, I):
             try:
                 kw = {K.param_name(op, p): fill(client, I, p["type"], args[p["name"]]) for p in op["in"]
                       if p["name"] in args}
+                if ORDER_ISSUES:
+                    ctx.fail("the members of a filled factory object are not in schema order", meta, ORDER_ISSUES[0][:2],
+                             ORDER_ISSUES[0][2], kind="filled-order")
+                    del ORDER_ISSUES[:]
                 env = wsdlkit.envelope_bytes(getattr(client.service, op["name"])(**kw))
                 root, kids = K.body_children(env)
             except Exception as e:
